@@ -758,12 +758,21 @@ class World:
 
     def drain(self):
         """Faults stop; every wait has a scheduled clear (longest chain: bounded by nesting depth x delays)."""
-        for _ in range(60):
+        idle, last = 0, self.seq
+        for _ in range(4000):
             self.sim.run_quiet(0.5)
             self.check_stuck()
             if self.quiescent():
                 break
-        self.sim.run_quiet(1.2)
+            if self.seq == last:
+                # nothing observable happened: the longest single timer of the workload is 2.5 s, so after
+                # 10 s without any model event nothing is going to happen any more
+                idle += 1
+                if idle >= 20:
+                    break
+            else:
+                idle, last = 0, self.seq
+        self.sim.run_quiet(3.0)
         self.check_stuck()
 
     def final_checks(self):
